@@ -205,6 +205,28 @@ func c01Block(c *Ctx, r *Rng, cols []blockCol, rows, rev int, tag string) {
 		R.Violate(Violation{Kind: "oracle", Key: key, What: what, Case: cs})
 		return
 	}
+	// ... nor on what a reused buffer held before: the client's buffer between requests is reset, not zeroed
+	dirty := func() *proto.Buffer {
+		b := new(proto.Buffer)
+		b.Buf = bytes.Repeat([]byte{0xA5}, len(enc)+96)
+		b.Reset()
+		return b
+	}
+	if !unorderedAny(cols) {
+		b4 := dirty()
+		if err := blk.EncodeBlock(b4, rev, in); err != nil || !bytes.Equal(b4.Buf, enc) {
+			R.Violate(Violation{Kind: "oracle", Key: "encode-depends-on-buffer", What: fmt.Sprintf("encoding into a used and reset buffer (stale bytes in its capacity) differs from encoding into a fresh one (err=%v)", err), Case: cs})
+			return
+		}
+		sink := &c14Sink{}
+		w := proto.NewWriter(sink, dirty())
+		werr := blk.WriteBlock(w, rev, in)
+		_, ferr := w.Flush()
+		if werr != nil || ferr != nil || !bytes.Equal(sink.got, enc) {
+			R.Violate(Violation{Kind: "oracle", Key: "encode-depends-on-buffer", What: fmt.Sprintf("WriteBlock through a writer whose buffer was used and reset differs from EncodeBlock into a fresh buffer (errs %v %v)", werr, ferr), Case: cs})
+			return
+		}
+	}
 	// WriteBlock path
 	{
 		sink := &c14Sink{}
